@@ -38,7 +38,7 @@ func (c *Ctx) validatedOrigin(v ssa.Value, depth int, seen map[ssa.Value]bool) (
 	switch x := v.(type) {
 	case *ssa.Extract:
 		if call, ok := x.Tuple.(*ssa.Call); ok {
-			if callName(call) == validatePathName && x.Index == 0 {
+			if (callName(call) == validatePathName || isValidatorWrapper(call.Call.StaticCallee())) && x.Index == 0 {
 				return []*ssa.Call{call}, ""
 			}
 			if callName(call) == "os.CreateTemp" && x.Index == 0 {
@@ -197,6 +197,48 @@ func describe(v ssa.Value) string {
 func runC08(c *Ctx) {
 	p := c.P
 	c.Rule("C08.SAN", "FLOW+DOM: in every (*LocalBackend) method, each path argument of a file-system call derives from result #0 of validatePath (through filepath.Dir, partPath, constant suffixes, temp-file names, WalkDir callbacks, validated helper parameters) and executes only where that call's error was nil")
+	c.Rule("C08.PARTREAD", "WHO: only the resumable-transfer methods (ReadToAt, StatFile, AppendReader and the two writers) ever form a `.part` staging path; the plain readers Read, ReadTo, Exists, List, ListObjects and their same-package callees never do — a reader that falls back to the staging file serves a partially written object under its final key")
+	{
+		plain := []string{"Read", "ReadTo", "Exists", "List", "ListObjects", "ListDirectories"}
+		n := 0
+		for _, name := range plain {
+			fn := c.P.Func("(*internal/storage.LocalBackend)." + name)
+			if fn == nil {
+				continue
+			}
+			n++
+			// same-package closure, depth 3
+			seen := map[*ssa.Function]bool{}
+			var offending []string
+			var walk func(f *ssa.Function, d int, via string)
+			walk = func(f *ssa.Function, d int, via string) {
+				if f == nil || seen[f] || d > 3 {
+					return
+				}
+				seen[f] = true
+				for _, sub := range append([]*ssa.Function{f}, allAnon(f)...) {
+					for _, in := range instrs(sub, false) {
+						if call, ok := in.(ssa.CallInstruction); ok {
+							if callName(call) == "internal/storage.partPath" {
+								offending = append(offending, via+f.Name()+" calls partPath")
+							}
+							if callee := call.Common().StaticCallee(); callee != nil && callee.Pkg == fn.Pkg {
+								walk(callee, d+1, via+f.Name()+" → ")
+							}
+						}
+						if bo, ok := in.(*ssa.BinOp); ok && bo.Op == token.ADD {
+							if sv, ok := constString(bo.Y); ok && sv == ".part" {
+								offending = append(offending, via+f.Name()+" appends \".part\"")
+							}
+						}
+					}
+				}
+			}
+			walk(fn, 0, "")
+			c.Check(len(offending) == 0, "C08.PARTREAD", name+"|never-reads-staging", fn.Pos(), "no staging path is formed on this read path", "the plain reader "+name+" can open the `.part` staging file ("+strings.Join(offending, "; ")+"): after an interrupted WriteReader/AppendReader it returns the staged prefix as if it were the object stored under the final key, and consumers that copy through it (tiering, backup, compaction) publish the truncated bytes")
+		}
+		c.Check(n >= 4, "C08.PARTREAD", "LocalBackend|plain-readers", 0, fmt.Sprintf("%d plain readers inspected", n), "plain reader methods not found")
+	}
 	c.Rule("C08.CONF", "DOM: every nil-error return of validatePath is guarded by a sound containment test of the absolute path against basePath (filepath.Rel + '..' prefix test, filepath.IsLocal, or a prefix test that includes the separator), and returns the tested value")
 	c.Rule("C08.ATOMIC", "WHO+DOM: in Write/WriteReader/AppendReader the final path is only ever the destination of os.Rename (data goes to a temp/.part file), and each such rename is reached only after every dominating write/copy and the file Close returned nil (AppendReader: also written == appendSize)")
 	c.Rule("C08.MANIFEST", "PASS: every store into the FSM's files map is preceded on every path by ValidateManifestPath of the stored path returning nil")
@@ -367,7 +409,7 @@ func c08Atomic(c *Ctx) {
 		}
 		// the final path value(s): result #0 of validatePath
 		var finals []ssa.Value
-		for _, call := range findCalls(fn, false, validatePathName) {
+		for _, call := range append(findCalls(fn, false, validatePathName), validatorWrapperCalls(fn)...) {
 			if v := resultN(call, 0); v != nil {
 				finals = append(finals, v)
 			}
@@ -677,4 +719,55 @@ func c08EdgeDerivedViaFreeVar(fn *ssa.Function, v ssa.Value) bool {
 		}
 		return false
 	}, false, 8)
+}
+
+// isValidatorWrapper: a LocalBackend method (path string) (string, error) every nil-error return of which hands back
+// result #0 of a validatePath call made on its own parameter, on that call's err == nil side — a stricter validator.
+var validatorWrapperMemo = map[*ssa.Function]bool{}
+
+func isValidatorWrapper(fn *ssa.Function) bool {
+	if fn == nil || fn.Signature.Results().Len() != 2 || ssaFuncName(fn) == validatePathName {
+		return false
+	}
+	if v, ok := validatorWrapperMemo[fn]; ok {
+		return v
+	}
+	validatorWrapperMemo[fn] = false
+	if recvTypeName(fn) != "LocalBackend" {
+		return false
+	}
+	n := 0
+	for _, in := range instrs(fn, false) {
+		r, ok := in.(*ssa.Return)
+		if !ok || len(r.Results) != 2 {
+			continue
+		}
+		if !isNilConst(unspill(r, r.Results[1])) {
+			continue
+		}
+		n++
+		ex, ok := unspill(r, r.Results[0]).(*ssa.Extract)
+		if !ok || ex.Index != 0 {
+			return false
+		}
+		call, ok := ex.Tuple.(*ssa.Call)
+		if !ok || callName(call) != validatePathName || !callSucceededBefore(call, r) {
+			return false
+		}
+		if _, isParam := resolveParam(call.Call.Args[1]).(*ssa.Parameter); !isParam {
+			return false
+		}
+	}
+	validatorWrapperMemo[fn] = n > 0
+	return n > 0
+}
+
+func validatorWrapperCalls(fn *ssa.Function) []ssa.CallInstruction {
+	var out []ssa.CallInstruction
+	for _, call := range callsIn(fn, false) {
+		if isValidatorWrapper(call.Common().StaticCallee()) {
+			out = append(out, call)
+		}
+	}
+	return out
 }
